@@ -165,6 +165,15 @@ func (ll *LevelList) TableCounts() []int {
 	return counts
 }
 
+// KeepFiles makes the files of all tables outlive the table objects.
+func (ll *LevelList) KeepFiles() {
+	for _, level := range ll.levels {
+		for t := range level.AllTables() {
+			t.KeepFile()
+		}
+	}
+}
+
 func (ll *LevelList) AscendLevels(offset int) iter.Seq[Level] {
 	if offset > len(ll.levels) {
 		panic(fmt.Sprintf("can't offset %d levels, LevelList has %d levels", offset, len(ll.levels)))
